@@ -21,7 +21,12 @@ def part_fprinter(ctx):
         m = molfacts.gridded(m0, conf_ids={cid})
         bits = rng.choice([2 ** 32, 4096, 1024, 32])
         cb = m1lib.Case(name, m, cid, o, bits=bits, counts=False)
-        if cb.unstable or cb.err is not None:
+        if cb.unstable:
+            continue
+        if cb.err is not None:
+            if cb.heavy_retained() and not cb.has_offtable_bond():
+                found = True
+                ctx.fail('fingerprinting raised %s' % cb.exc, cb.payload(), finding_key=None)
             continue
         cc = m1lib.Case(name, m, cid, o, bits=bits, counts=True)
         lv = rng.choice([None, 0, 1, cb.k])
